@@ -116,25 +116,26 @@ Theorem c04_checkout_grants_idle : forall cfg st c s rest,
 Proof. exact checkout_idle_grants. Qed.
 Print Assumptions c04_checkout_grants_idle.
 
-(** Transaction mode, outside the known class F14 ([known_intercept_hold ops = false]): no task
-    ever sits at the client read holding a connection outside a transaction. *)
+(** Transaction mode, the code that exists ([f14_mutant cfg = false], i.e. since a7d476c): no task
+    ever sits at the client read holding a connection outside a transaction — for every history,
+    no class excepted. *)
 Theorem c04_no_idle_hold : forall cfg ops,
-  session_mode cfg = false -> known_intercept_hold ops = false ->
+  session_mode cfg = false -> f14_mutant cfg = false ->
   forall c s, clients (run cfg ops) c <> Holding s IdleHeld.
 Proof. exact no_idle_hold_lemma. Qed.
 Print Assumptions c04_no_idle_hold.
 
-(** The class is not empty: the code path client.rs:1369-1374 (confirmed on the implementation). *)
-Theorem c04_no_idle_hold_refuted :
-  session_mode f14_cfg = false /\ known_intercept_hold f14_ops = true /\
+(** The mutant = the code before a7d476c (finding F14, fixed): there the property fails. *)
+Theorem c04_no_idle_hold_mutant_refuted :
+  session_mode f14_cfg = false /\ f14_mutant f14_cfg = true /\
   clients (run f14_cfg f14_ops) 0 = Holding 0 IdleHeld /\
   clients (run f14_cfg f14_ops) 1 = NoServer /\ idleq (run f14_cfg f14_ops) = [] /\
   ~ no_idle_hold (run f14_cfg f14_ops).
 Proof. exact no_idle_hold_refuted_lemma. Qed.
-Print Assumptions c04_no_idle_hold_refuted.
+Print Assumptions c04_no_idle_hold_mutant_refuted.
 
 (** * Non-vacuity: 3 clients, pool of 2 (transaction mode, LIFO) *)
-Definition ex_cfg : config := mkConfig 2 0 Lifo false.
+Definition ex_cfg : config := mkConfig 2 0 Lifo false false.
 Definition ex_ops1 : list op :=
   [Checkout 0; ConnEstablished; Retry 0; Exchange 0;      (* client 0: BEGIN on connection 0 *)
    Checkout 1; ConnEstablished; Retry 1; Exchange 1;      (* client 1: BEGIN on connection 1 *)
@@ -171,7 +172,7 @@ Proof. vm_compute. split; reflexivity. Qed.
 (** bb8's wait list rotates on a closed connection: pool of 1, [1; 2] wait, the holder panics in
     its transaction: 2 is served before 1 (observed identically on the implementation). *)
 Example ex_rotation_on_close :
-  view (run (mkConfig 1 0 Lifo false)
+  view (run (mkConfig 1 0 Lifo false false)
          [Checkout 0; ConnEstablished; Retry 0; Exchange 0; Checkout 1; Checkout 2;
           ExitHolding 0 Panic true; Retry 1; ConnEstablished; Retry 2]) [0; 1; 2] =
   (1, 0, [], ([1], []), [(0, Gone); (1, Waiting); (2, Holding 1 Fresh)], []).
@@ -179,6 +180,6 @@ Proof. vm_compute. reflexivity. Qed.
 
 (** session mode keeps the connection between transactions — by definition, not a leak *)
 Example ex_session_mode_keeps :
-  view (run (mkConfig 1 0 Lifo true) [Checkout 0; ConnEstablished; Retry 0; Exchange 0; SessionModeKeep 0]) [0] =
+  view (run (mkConfig 1 0 Lifo true false) [Checkout 0; ConnEstablished; Retry 0; Exchange 0; SessionModeKeep 0]) [0] =
   (1, 0, [], ([], []), [(0, Holding 0 IdleHeld)], []).
 Proof. vm_compute. reflexivity. Qed.
